@@ -214,8 +214,9 @@ def match_ref(target, spec, scope):
             if spec(target):
                 return target
         except Exception as e:
-            raise MatchError("{0}({1!r}) did not validate (got exception {2!r})", spec.__name__, target, e)
-        raise MatchError("{0}({1!r}) did not validate (non truthy return)", spec.__name__, target)
+            # (a callable pattern need not have a __name__ -- functools.partial objects, callable instances: the rejection is a MatchError all the same)
+            raise MatchError("{0}({1!r}) did not validate (got exception {2!r})", getattr(spec, '__name__', bbrepr(spec)), target, e)
+        raise MatchError("{0}({1!r}) did not validate (non truthy return)", getattr(spec, '__name__', bbrepr(spec)), target)
     if target != spec:
         raise MatchError("{0!r} does not match {1!r}", target, spec)
     return target
